@@ -179,7 +179,7 @@ def run_case(case):
         # whose solution lies on a curved constraint approached from
         # outside: exactly feasible and barely infeasible points coexist
         n = int(rng.integers(2, 4))
-        spec = gen.general(rng, n=n, con="nl", maxfev=(60, 160),
+        spec = gen.general(rng, xunit=False, n=n, con="nl", maxfev=(60, 160),
                            obj_kinds=("lin", "quad", "lin"),
                            opt_allow=("scale", "radius"),
                            with_callback=False, bound_patterns="none")
